@@ -27,8 +27,8 @@ func repoRoot() string {
 
 type bindStats struct {
 	blocks, blockTxs, witnessCommitments int
-	txVectors, txVectorsWitness         int
-	realBlocks                          []Rec
+	txVectors, txVectorsWitness          int
+	realBlocks                           []Rec
 }
 
 func revHex(h [32]byte) string {
